@@ -344,7 +344,7 @@ def run_workload(w):
     njobs = len(w["jobs"])
     ctl.jobs = [None] * njobs
     wd = tempfile.mkdtemp(prefix="xpmverif-sched-", dir=w.get("scratch"))
-    trace = dict(steps=[], deps=[None] * njobs, dup=[None] * njobs, heaps=[None] * njobs, refused={}, error=None,
+    trace = dict(steps=[], deps=[None] * njobs, dup=[None] * njobs, heaps=[None] * njobs, refused={}, skipped={}, error=None,
                  ended="schedule")
     try:
         xp = experiment(wd, "x", port=-1)
@@ -370,6 +370,13 @@ def run_workload(w):
 
         def do_submit(j):
             spec = w["jobs"][j]
+            ups = [k for (k, _how) in spec.get("embed", [])] + ([spec["copy_of"]] if spec.get("copy_of") is not None else [])
+            gone = [k for k in ups if k in trace["refused"] or k in trace["skipped"]]
+            if gone:
+                # nothing can be built on a submission that was refused: this job is left out
+                trace["skipped"][j] = gone[0]
+                ctl.jobs[j] = None
+                return False
             cfg, init = build_config(ctl, w, j, values, objs)
             for (t, c) in spec["toks"]:
                 cfg.add_dependencies(tokens[t].dependency(c))
